@@ -260,8 +260,8 @@ def make_cfg(seed, shard, i):
     rng = random.Random(h64('C10', 'threads', seed, shard, i))
     fam = rng.choice(sorted(VARIANTS))
     return {'fam': fam, 'variant': rng.choice(VARIANTS[fam]), 'target': rng.choice(TARGETS),
-            'n': rng.choice((2, 4, 8)), 'per': 50, 'p': rng.choice((0.0, 0.003, 0.01, 0.04)),
-            'warm': rng.random() < 0.4, 'seed': h64('C10', 'run', seed, shard, i)}
+            'n': rng.choice((2, 4, 8, 8)), 'per': 50, 'p': rng.choice((0.0, 0.003, 0.01, 0.04)),
+            'warm': rng.random() < 0.3, 'seed': h64('C10', 'run', seed, shard, i)}
 
 
 def thread_kind(exp, obs):
